@@ -165,6 +165,10 @@ def assemble(argv, flags=None):
     k = ['-k', argv['k']] if argv.get('k') else []
     tail = list(argv.get('tail') or [])
     pos = argv.get('tail_pos', 'end')
+    if argv.get('names_first') and not k and not tail and flags and all(
+            f in ('--tagged', '--istagged') for f in flags):
+        # the long options written after the class names
+        return list(argv['names']) + flags
     return ((tail if pos == 'first' else []) + flags + k
             + (tail if pos == 'before-names' else []) + list(argv['names'])
             + (tail if pos == 'end' else []))
@@ -174,6 +178,7 @@ def assemble(argv, flags=None):
 def case_strategy(draw, tier):
     m = draw(module_desc())
     a = draw(argv_desc(m['classes']))
+    a['names_first'] = bool(a['names']) and draw(st.booleans())
     if m.get('load_tests') or any(c['methods'] == ['runTest']
                                   for c in m['classes']):
         # -k does not reach tests a hook builds by hand, and unittest falls
